@@ -259,7 +259,7 @@ fn main() {
     let mut carry = Carry { max_ts: 0, max_ret: 0 };
     let mut rng = Rng::derive(a.seed, "C33", 0);
 
-    let (threads, rounds, calls) = if miri { (3usize, 1u64, 5usize) } else { a.pick((8, 150, 2_000), (16, 4_000, 4_000)) };
+    let (threads, rounds, calls) = if miri { (3usize, 1u64, 5usize) } else { a.pick((8, 150, 2_000), (16, 1_200, 4_000)) };
     let only: Option<String> = a.replay.as_ref().map(|p| {
         let v: Value = serde_json::from_str(&std::fs::read_to_string(p).unwrap()).unwrap();
         v["replay"]["phase"].as_str().unwrap_or("").to_string()
